@@ -14,7 +14,7 @@
    of the key of the FIRST certificate it sends; a version below the configured minimum
    fails the handshake), gorilla's upgrade (sub-protocol selection as in
    Upgrader.selectSubprotocol).  SHA-1 is a Section variable. *)
-From Ship Require Import Base Ski.
+From Ship Require Import Base Ski Sha1.
 From ShipGen Require Import CertTable.
 
 (* a parsed certificate, as far as the code looks at it: the SubjectKeyId extension
@@ -251,13 +251,8 @@ Definition mon_outbound (dialled : bytes) (certs : list cert) (d : odecision) : 
 End WithSha1.
 
 (* ================= cases written by harness/cmd/certdrv ================= *)
-(* SHA-1 for the cases: the digests crypto/sha1 computed for the keys occurring in the case *)
-Fixpoint sha1_of_table (t : list (bytes * bytes)) (x : bytes) : bytes :=
-  match t with
-  | [] => repeat 0 20
-  | (k, d) :: r => if bytes_eqb k x then d else sha1_of_table r x
-  end.
-
+(* SHA-1 for the cases: the executable Sha1.sha1_impl; every certificate of a case comes with
+   the digest Go's crypto/sha1 computed for its key, and the two must agree (code 1) *)
 Definition decision_eqb (a b : decision) : bool :=
   match a, b with
   | Refuse STls, Refuse STls => true
@@ -274,7 +269,16 @@ Definition odecision_eqb (a b : odecision) : bool :=
 
 (* a certificate together with the crypto/sha1 digest of its key *)
 Definition dcert := (cert * bytes)%type.
-Definition tbl_of (l : list dcert) : list (bytes * bytes) := map (fun p => (pubkey (fst p), snd p)) l.
+(* digests computed once per case: key -> Sha1.sha1_impl key, looked up by the model and the monitor *)
+Fixpoint sha1_of_table (t : list (bytes * bytes)) (x : bytes) : bytes :=
+  match t with
+  | [] => sha1_impl x
+  | (k, d) :: r => if bytes_eqb k x then d else sha1_of_table r x
+  end.
+Definition digest_table (l : list dcert) : list (bytes * bytes) :=
+  map (fun dc => (pubkey (fst dc), sha1_impl (pubkey (fst dc)))) l.
+Definition digests_agree (l : list dcert) (t : list (bytes * bytes)) : codes :=
+  if list_eqb bytes_eqb (map snd l) (map snd t) then [] else [1].
 
 Inductive c02_case :=
 (* cert.SkiFromCertificate on one certificate: observed result (None = error) *)
@@ -293,8 +297,10 @@ Inductive c02_case :=
 Definition check_c02 (c : c02_case) : codes :=
   match c with
   | CSki dc got =>
-      let sha := sha1_of_table (tbl_of [dc]) in
+      let tbl := digest_table [dc] in
+      let sha := sha1_of_table tbl in
       let ct := fst dc in
+      digests_agree [dc] tbl ++
       (if option_eqb bytes_eqb (ski_from_cert sha code_config ct) got then [] else [1]) ++
       match got, ski_ext ct with
       | Some k, Some s =>
@@ -305,8 +311,10 @@ Definition check_c02 (c : c02_case) : codes :=
       | None, _ => if option_eqb bytes_eqb (ski_ext ct) (Some (sha (pubkey ct))) then [16] else []
       end
   | CGen dc got =>
-      let sha := sha1_of_table (tbl_of [dc]) in
+      let tbl := digest_table [dc] in
+      let sha := sha1_of_table tbl in
       let ct := fst dc in
+      digests_agree [dc] tbl ++
       (* the generator's certificate is gen_cert of its key, and it is accepted *)
       (if option_eqb bytes_eqb (ski_ext ct) (ski_ext (gen_cert sha (pubkey ct)))
           && option_eqb bytes_eqb (ski_from_cert sha code_config (gen_cert sha (pubkey ct))) got then [] else [1]) ++
@@ -320,13 +328,17 @@ Definition check_c02 (c : c02_case) : codes :=
       (if bytes_eqb (hex b) got then [] else [1]) ++
       (if Nat.eqb (length got) (2 * length b) && forallb is_lower_hex got then [] else [18])   (* hex_format *)
   | CIn ver offered dcs got =>
-      let sha := sha1_of_table (tbl_of dcs) in
+      let tbl := digest_table dcs in
+      let sha := sha1_of_table tbl in
       let certs := map fst dcs in
+      digests_agree dcs tbl ++
       (if decision_eqb (accept_inbound sha code_config ver offered certs) got then [] else [1]) ++
       mon_inbound sha ver offered certs got
   | COut dialled dcs got =>
-      let sha := sha1_of_table (tbl_of dcs) in
+      let tbl := digest_table dcs in
+      let sha := sha1_of_table tbl in
       let certs := map fst dcs in
+      digests_agree dcs tbl ++
       (if odecision_eqb (accept_outbound sha code_config dialled certs) got then [] else [1]) ++
       mon_outbound sha dialled certs got
   end.
